@@ -180,12 +180,13 @@ fn corr_len(nmax: usize, out: &mut Vec<String>) {
                 Err(_) => "panic".into(),
             };
             let g = catch(AssertUnwindSafe(|| a.get_num_steps(n))).map(|x| format!("{:x}", x)).unwrap_or_else(|_| "panic".into());
-            let st = catch(AssertUnwindSafe(|| {
+            let want_steps = n <= 8 * nmax;
+            let st = if !want_steps { "-".to_string() } else { catch(AssertUnwindSafe(|| {
                 let mut v = vec![];
                 a.apply(n, |step, val| v.push(format!("{:x}:{:x}", step, (val - one).as_int())));
                 v.join(",")
-            })).unwrap_or_else(|_| "panic".into());
-            out.push(format!("len {} {:x} => {} {} {}", s.show(), n, v, g, st));
+            })).unwrap_or_else(|_| "panic".into()) };
+            out.push(format!("len {} {:x} {} => {} {} {}", s.show(), n, want_steps as u8, v, g, st));
         }
     }
 }
